@@ -56,6 +56,12 @@ func (m *Machine) bytesTerm(b []Value) *Term {
 }
 
 func realHash(kind string, in []byte) []byte {
+	if strings.HasPrefix(kind, "crc32:") {
+		var poly uint32
+		fmt.Sscanf(kind[6:], "%x", &poly)
+		c := crc32.Checksum(in, crc32.MakeTable(poly))
+		return []byte{byte(c >> 24), byte(c >> 16), byte(c >> 8), byte(c)}
+	}
 	switch kind {
 	case "sha256":
 		h := sha256.Sum256(in)
@@ -124,6 +130,21 @@ func (m *Machine) hash(kind string, in []Value, outLen int) []Value {
 		inEq := p.Eq(o.inT, app.inT)
 		if functionalOnly {
 			m.assertPC(p.Implies(inEq, outEq))
+			// CRC-32 detects every error burst of at most 32 bits: inputs that differ only inside a
+			// window of 4 consecutive bytes have different checksums.
+			lo, hi, nd := -1, -1, 0
+			for i := range in {
+				if !sameElems(o.in[i:i+1], in[i:i+1]) {
+					if lo < 0 {
+						lo = i
+					}
+					hi = i
+					nd++
+				}
+			}
+			if nd > 0 && hi-lo < 4 {
+				m.assertPC(p.Implies(p.Not(inEq), p.Not(outEq)))
+			}
 		} else {
 			m.assertPC(p.Eq(inEq, outEq))
 		}
@@ -192,9 +213,10 @@ func (m *Machine) crcTable(v Value) *crc32.Table {
 	panic(pathEnd{kind: "unsupported", msg: "crc32 table of unknown origin"})
 }
 
-func (m *Machine) crcTableName(v Value) string {
+// crcPolyName identifies the table by its (reversed) polynomial: table[128] is the polynomial itself.
+func (m *Machine) crcPolyName(v Value) string {
 	t := m.crcTable(v)
-	return fmt.Sprintf("%08x", t[1])
+	return fmt.Sprintf("%08x", t[128])
 }
 
 // ---------------------------------------------------------------- ideal signatures
@@ -949,4 +971,20 @@ func init() {
 		reg(p+".MarshalIndent", marshal)
 		reg(p+".Unmarshal", unmarshal)
 	}
+}
+
+func init() {
+	reg("crypto/rand.Read", func(m *Machine, fr *frame, a []Value) Value {
+		b := a[0].(Slice)
+		m.keySeq++
+		var out []byte
+		for i := 0; len(out) < len(b); i++ {
+			h := sha256.Sum256([]byte(fmt.Sprintf("symgo-crand-%d-%d", m.keySeq, i)))
+			out = append(out, h[:]...)
+		}
+		for i := range b {
+			b[i] = int64(out[i])
+		}
+		return Tuple{int64(len(b)), Iface{}}
+	})
 }
